@@ -4,6 +4,38 @@ package main
 // coq/theories/Gen/Code<Area>.v per area.  The refinement lemmas are in
 // coq/theories/<Area>/CodeRefine.v.
 
+// sniproxy decoder methods (decoder.go): d.r is an abstract reader; d.n, d.err, d.tail are state.
+var (
+	dR    = pspec{src: "d.r", name: "d_r", typ: "object:reader"}
+	dN    = pspec{src: "d.n", name: "d_n", typ: "int64"}
+	dErr  = pspec{src: "d.err", name: "d_err", typ: "error"}
+	dTail = pspec{src: "d.tail", name: "d_tail", typ: "int64"}
+)
+
+func decT(name string, res bool, ps ...pspec) codeTarget {
+	cfg := transCfg{res: res, params: ps,
+		errLits:  map[string]bool{"tailError": true},
+		libAlias: map[string]string{"endian.Uint64": "encoding/binary.LittleEndian.Uint64"},
+		calls: map[string]string{
+			"d.hasErr": "sniproxy|decoder|hasErr", "d.read": "sniproxy|decoder|read",
+			"d.u64": "sniproxy|decoder|u64", "d.bytes": "sniproxy|decoder|bytes",
+			"d.tailError": "sniproxy|decoder|tailError"},
+		fuel: "S (rd_size d_r_rd)"}
+	if res {
+		for _, p := range ps {
+			switch p.src {
+			case "d.n", "d.err", "d.tail":
+				cfg.stateOut = append(cfg.stateOut, p.src)
+			case "buf":
+				if name == "read" {
+					cfg.stateOut = append(cfg.stateOut, p.src)
+				}
+			}
+		}
+	}
+	return codeTarget{dir: "sniproxy", recv: "decoder", name: name, cfg: cfg}
+}
+
 func init() {
 	register("CodeCaco", func(repo string) (string, error) {
 		return emitCodeArea(repo, "CodeCaco", []codeTarget{
@@ -42,6 +74,19 @@ func init() {
 			{dir: "sniproxy", name: "isRejectedDomain", cfg: transCfg{externs: map[string]extern{
 				"net.ParseIP": {name: "net_ParseIP_notnil", args: []string{"string"}, res: []string{tNonnil}},
 			}}},
+			// C13: the wire decoder over an abstract reader; receiver fields n, err, tail are state
+			decT("hasErr", false, dErr),
+			decT("Err", false, dErr),
+			decT("count", false, dN),
+			decT("overread", false, dErr),
+			decT("tailError", false, dTail),
+			decT("read", true, dR, dN, dErr, pspec{src: "buf", name: "buf", typ: "[]byte"}),
+			decT("rest", true, dR, dN, dErr),
+			decT("u8", true, dR, dN, dErr),
+			decT("u64", true, dR, dN, dErr),
+			decT("bytes", true, dR, dN, dErr, pspec{src: "buf", name: "buf", typ: "[]byte"}),
+			decT("str", true, dR, dN, dErr),
+			decT("end", true, dR, dErr, dTail),
 			// C14: the length of the second Peek of HelloInfo: the statements up to `recLen := ...`
 			{dir: "sniproxy", recv: "TLSHelloConn", name: "HelloInfo", cfg: transCfg{
 				coqName: "gen_sniproxy_HelloInfo_recLen", checked: true,
